@@ -49,6 +49,7 @@ enum Ext {
     CustomId,
     MissingState,
     BestObjective,
+    BestSolution,
 }
 
 #[derive(Default)]
@@ -86,6 +87,7 @@ fn ext_name(e: Ext) -> &'static str {
         Ext::CustomValueOf | Ext::CustomId => std::any::type_name::<Cu>(),
         Ext::MissingState => std::any::type_name::<Missing>(),
         Ext::BestObjective => "BestObjectiveValue",
+        Ext::BestSolution => "BestSolution",
     }
 }
 
@@ -129,6 +131,7 @@ impl Component<P> for Probe {
                 Ext::CustomValueOf | Ext::CustomId => json!(state.try_get_value::<Cu>().ok()),
                 Ext::MissingState => Value::Null,
                 Ext::BestObjective => json!(state.best_objective_value().map(|o| o.value())),
+                Ext::BestSolution => json!(state.best_individual().map(|b| b.solution().clone())),
             };
             step.push((name, v));
         }
@@ -172,6 +175,8 @@ struct LogCase {
     nested_scope_loop: Option<u32>,
     two_loggers_in_loop: bool,
     with_best: bool,
+    /// register consecutive rules that share a stateless trigger through `with_many`, after a `clear()` of junk rules
+    via_with_many: bool,
 }
 
 fn run_log_case(rep: &Reporter, c: &LogCase, scratch: &str, export: bool) {
@@ -200,6 +205,7 @@ fn run_log_case(rep: &Reporter, c: &LogCase, scratch: &str, export: bool) {
     let rules = c.rules.clone();
     let sh = shared.clone();
     let with_best = c.with_best;
+    let via_with_many = c.via_with_many;
     let res = catch(|| {
         cfg.optimize_with(&problem, move |state| {
             state.insert(Cu(1));
@@ -208,6 +214,41 @@ fn run_log_case(rep: &Reporter, c: &LogCase, scratch: &str, export: bool) {
                 state.insert(BestIndividual::<P>::new());
             }
             state.configure_log(|cfgl| {
+                let ext_of = |e: &Ext| -> Box<dyn mahf::logging::extractor::EntryExtractor<P>> {
+                    match e {
+                        Ext::Iterations => ValueOf::<Iterations>::entry(),
+                        Ext::Evaluations => ValueOf::<Evaluations>::entry(),
+                        Ext::CustomValueOf => ValueOf::<Cu>::entry(),
+                        Ext::CustomId => IdLens::<Cu>::entry(),
+                        Ext::MissingState => ValueOf::<Missing>::entry(),
+                        Ext::BestObjective => BestObjectiveValueLens::<P>::entry(),
+                        Ext::BestSolution => mahf::lens::common::BestSolutionLens::<P>::entry(),
+                    }
+                };
+                if via_with_many {
+                    // junk first, then clear(): none of it may show up in the log
+                    *cfgl = mahf::logging::LogConfig::new();
+                    cfgl.with_common(EveryN::iterations(1));
+                    cfgl.clear();
+                    let mut i = 0;
+                    while i < rules.len() {
+                        let (t, _) = &rules[i];
+                        let stateless = !matches!(t, Trig::Scripted(..));
+                        let mut j = i + 1;
+                        while stateless && j < rules.len() && rules[j].0 == *t {
+                            j += 1;
+                        }
+                        let trig: Box<dyn Condition<P>> = match t {
+                            Trig::Always => EveryN::iterations(1),
+                            Trig::Never => !EveryN::iterations(1),
+                            Trig::EveryK(k) => EveryN::iterations(*k),
+                            Trig::Scripted(o, ix) => Box::new(ScriptTrig { outcomes: o.clone(), ix: *ix, shared: sh.clone() }),
+                        };
+                        cfgl.with_many(trig, rules[i..j].iter().map(|r| ext_of(&r.1)).collect::<Vec<_>>());
+                        i = j;
+                    }
+                    return Ok(());
+                }
                 for (t, e) in &rules {
                     let trig: Box<dyn Condition<P>> = match t {
                         Trig::Always => EveryN::iterations(1),
@@ -222,6 +263,7 @@ fn run_log_case(rep: &Reporter, c: &LogCase, scratch: &str, export: bool) {
                         Ext::CustomId => cfgl.with(trig, IdLens::<Cu>::entry()),
                         Ext::MissingState => cfgl.with(trig, ValueOf::<Missing>::entry()),
                         Ext::BestObjective => cfgl.with(trig, BestObjectiveValueLens::<P>::entry()),
+                        Ext::BestSolution => cfgl.with(trig, mahf::lens::common::BestSolutionLens::<P>::entry()),
                     };
                 }
                 Ok(())
@@ -233,7 +275,7 @@ fn run_log_case(rep: &Reporter, c: &LogCase, scratch: &str, export: bool) {
     let g = shared.lock().unwrap();
     rep.count("logger_executions_observed", g.logger_executions);
     rep.count("logger_executions_with_a_firing_rule", g.firing_executions);
-    let desc = || json!({"rules": format!("{:?}", c.rules), "outer_iterations": c.n_outer, "logger_in_loop": c.logger_in_loop, "second_logger_in_loop": c.two_loggers_in_loop, "logger_after_loop": c.logger_after_loop, "nested_scope_loop_iterations": c.nested_scope_loop, "best_individual_state": c.with_best});
+    let desc = || json!({"rules": format!("{:?}", c.rules), "outer_iterations": c.n_outer, "logger_in_loop": c.logger_in_loop, "second_logger_in_loop": c.two_loggers_in_loop, "logger_after_loop": c.logger_after_loop, "nested_scope_loop_iterations": c.nested_scope_loop, "best_individual_state": c.with_best, "registered_through_clear_and_with_many": c.via_with_many});
     let state = match res {
         Ok(Ok(s)) => s,
         other => {
@@ -327,7 +369,7 @@ fn run_log_case(rep: &Reporter, c: &LogCase, scratch: &str, export: bool) {
 
 fn log_part(rep: &Reporter, scratch: &str) {
     let mut rng = SplitMix64::new(rep.seed).fork(0xC15);
-    let exts = [Ext::Iterations, Ext::Evaluations, Ext::CustomValueOf, Ext::CustomId, Ext::MissingState, Ext::BestObjective];
+    let exts = [Ext::Iterations, Ext::Evaluations, Ext::CustomValueOf, Ext::CustomId, Ext::MissingState, Ext::BestObjective, Ext::BestSolution];
     // systematic: all single rules and all ordered pairs of (trigger class, extractor) over a small trigger set
     let trigs = |ix: &mut usize| -> Vec<Trig> {
         let s = Trig::Scripted(vec![true, false, false, true, true, false, true], *ix);
@@ -338,7 +380,7 @@ fn log_part(rep: &Reporter, scratch: &str) {
     for e1 in exts {
         let mut ix = 0;
         for t1 in trigs(&mut ix) {
-            cases.push(LogCase { rules: vec![(t1.clone(), e1)], n_outer: 7, logger_in_loop: true, logger_after_loop: true, nested_scope_loop: None, two_loggers_in_loop: false, with_best: true });
+            cases.push(LogCase { rules: vec![(t1.clone(), e1)], n_outer: 7, logger_in_loop: true, logger_after_loop: true, nested_scope_loop: None, two_loggers_in_loop: false, with_best: true, via_with_many: false });
             for e2 in exts {
                 let mut ix2 = 1;
                 for t2 in trigs(&mut ix2) {
@@ -346,7 +388,8 @@ fn log_part(rep: &Reporter, scratch: &str) {
                         Trig::Scripted(o, _) => Trig::Scripted(o.clone(), 0),
                         t => t.clone(),
                     };
-                    cases.push(LogCase { rules: vec![(t1c, e1), (t2, e2)], n_outer: 6, logger_in_loop: true, logger_after_loop: false, nested_scope_loop: None, two_loggers_in_loop: false, with_best: e1 != Ext::MissingState });
+                    let same = t1c == t2;
+                    cases.push(LogCase { rules: vec![(t1c, e1), (t2, e2)], n_outer: 6, logger_in_loop: true, logger_after_loop: false, nested_scope_loop: None, two_loggers_in_loop: false, with_best: e1 != Ext::MissingState, via_with_many: same && e1 != e2 });
                 }
             }
         }
@@ -380,6 +423,7 @@ fn log_part(rep: &Reporter, scratch: &str) {
             nested_scope_loop: if rng.chance(0.35) { Some(rng.below(4) as u32) } else { None },
             two_loggers_in_loop: rng.chance(0.25),
             with_best: rng.chance(0.7),
+            via_with_many: rng.chance(0.3),
         });
     }
     for (k, c) in cases.iter().enumerate() {
